@@ -82,7 +82,11 @@ pub fn new_boxed<T: MaybeDynSized<Metadata = usize> + ?Sized>(
 /// Clones a [`MaybeDynSized`] by calling [`new_boxed`].
 #[must_use]
 pub fn clone_dyn<T: MaybeDynSized<Metadata = usize> + ?Sized>(tag: &T) -> Box<T> {
-    new_boxed(tag.header().clone(), &[tag.payload()])
+    let header = tag.header().clone();
+    // `payload()` also covers the padding up to the next alignment boundary,
+    // which is not part of the tag's size.
+    let payload = &tag.payload()[..header.payload_len()];
+    new_boxed(header, &[payload])
 }
 
 #[cfg(test)]
